@@ -49,12 +49,33 @@ bool FeatureChecker::visitTemplateBefore(template_t& templ)
     return templ.is_instantiated;
 }
 
+/** Whether some clock inside a variable of the given type (a clock, arrays and records of clocks) gets a floating-point value. */
+static bool initialises_clock_with_fp(type_t type, const expression_t& init)
+{
+    if (init.empty())
+        return false;
+    if (type.is_array()) {
+        if (init.get_kind() != Constants::LIST)
+            return initialises_clock_with_fp(type.get_sub(), init);
+        for (uint32_t i = 0; i < init.get_size(); ++i)
+            if (initialises_clock_with_fp(type.get_sub(), init[i]))
+                return true;
+        return false;
+    }
+    if (type.is_record()) {
+        if (init.get_kind() != Constants::LIST)
+            return false;
+        for (uint32_t i = 0; i < init.get_size() && i < type.get_record_size(); ++i)
+            if (initialises_clock_with_fp(type.get_sub(i), init[i]))
+                return true;
+        return false;
+    }
+    return type.is_clock() && init.uses_fp();
+}
+
 void FeatureChecker::visitVariable(variable_t& var)
 {
-    type_t type = var.uid.get_type();
-    while (type.is_array())  // arrays of clocks
-        type = type.get_sub();
-    if (type.is_clock() && !var.init.empty() && var.init.uses_fp())
+    if (initialises_clock_with_fp(var.uid.get_type(), var.init))
         supported_methods.symbolic = false;
 }
 
